@@ -226,7 +226,9 @@ class Ctx:
             if src is not None:
                 shutil.copy(src, os.path.join(d, name))
         cfg = cfg or (module + ".cfg")
-        jopts = ["-XX:+UseParallelGC", "-Xss64m"]
+        os.makedirs(os.path.join(d, "jtmp"), exist_ok=True)
+        # TLC unpacks its standard modules into java.io.tmpdir on every run: keep that inside the run dir
+        jopts = ["-XX:+UseParallelGC", "-Xss64m", "-Djava.io.tmpdir=" + os.path.join(d, "jtmp")]
         if heap:
             jopts.append("-Xmx" + heap)
         cmd = ["java"] + jopts + ["-cp", TLA_CP, "tlc2.TLC", "-metadir", os.path.join(d, "meta"),
